@@ -10,6 +10,7 @@ import (
 	"fmt"
 	"os"
 	"runtime"
+	"strings"
 	"sync"
 	"unsafe"
 )
@@ -240,3 +241,30 @@ func verifNativeOverlap(a, b []byte) bool {
 }
 
 func verifStepBudgetEnd() {}
+
+// verifCallerName names the nearest caller outside the harness/allocator.
+func verifCallerName() string {
+	for i := 1; i < 12; i++ {
+		pc, _, _, ok := runtime.Caller(i)
+		if !ok {
+			break
+		}
+		f := runtime.FuncForPC(pc)
+		if f == nil {
+			continue
+		}
+		n := f.Name()
+		if strings.Contains(n, "verif") || strings.Contains(n, "/mempool.") {
+			continue
+		}
+		return shortFuncName(n)
+	}
+	return "?"
+}
+
+func shortFuncName(n string) string {
+	if i := strings.LastIndex(n, "/"); i >= 0 {
+		n = n[i+1:]
+	}
+	return strings.NewReplacer("(", "", ")", "", "*", "").Replace(n)
+}
